@@ -1,6 +1,13 @@
-(* C06: proofs about the model of the rendered diff (RenderModel.v), for all trees, scripts and layouts. *)
-From Coq Require Import List Bool ZArith Lia Arith.
-Require Import GT.PyBase GT.Data GT.ScriptSpec GT.ListAux GT.JsonSpec GT.JsonModel GT.JsonProofs GT.RenderSpec GT.RenderModel.
+(* C06: proofs about the model of the rendered diff (RenderModel.v), for all trees, scripts and layouts.
+   Contents: the lexer and the tokens of a plain print; what each projection of a rendered script spells
+   (redit_spells / jrender_spells); change marks (marks_jrender, qn_cost); ordered containers: the projections are the
+   documents token for token (nproj_doc); reading back through C12 (reads_ttoks); mappings: the projections are the
+   documents up to member order (sort_members_perm, nproj_same, C06_text_all); edit_ok from C01 (valid_edit_ok);
+   well-priced scripts (node_alike, priced_fair, priced_pos, C06_priced_text_all / C06_priced_marks_all); the D33
+   carve-out on documents (nomil_clean); the bridge to implementation cases (C06_bridge_all).
+   The theorems about the MODEL's scripts are in RenderScriptProofs.v. *)
+From Coq Require Import List Bool ZArith Lia Arith Permutation.
+Require Import GT.PyBase GT.Data GT.ScriptSpec GT.ListAux GT.JsonSpec GT.JsonModel GT.JsonProofs GT.EqualSpec GT.RenderSpec GT.RenderModel.
 Import ListNotations.
 Open Scope Z_scope.
 
@@ -626,26 +633,6 @@ Proof.
   - cbn in Hc. apply andb_prop in Hc as [H1 H2]. destruct i; cbn; auto.
 Qed.
 
-(* no list element that is a mapping is replaced (Match / Replace at a cost): the shape of finding D33, where
-   the edit is printed twice (RenderModel.from_to_twice) *)
-Fixpoint clean (inl : bool) (a : tree) (e : edit) {struct e} : bool :=
-  match e with
-  | EMatch c | EReplace c => negb ((0 <? c) && (inl && is_mapping a))
-  | EStr _ _ => true
-  | EComp k _ subs =>
-      if is_seq_kind k then
-        (fix all (ss : list sub) : bool :=
-           match ss with
-           | [] => true
-           | SPair i _ e' :: r => clean (is_lst a) (child a i) e' && all r
-           | _ :: r => all r
-           end) subs
-      else
-        match subs with
-        | [SPair _ _ ke; SPair _ _ ve] => clean false (child a 0) ke && clean false (child a 1) ve
-        | _ => true
-        end
-  end.
 
 Lemma spells_from_to_in : forall side inl c lay n a b, tok_ok a = true -> tok_ok b = true ->
   clean inl a (EReplace c) = true ->
@@ -1574,15 +1561,6 @@ Proof.
     + eapply Forall_impl; [|exact IH]. cbn. intros c Hc. apply Hc.
 Qed.
 
-(* JSON-shaped trees: mapping members are key/value pairs with string keys; pairs occur nowhere else *)
-Definition is_str_leaf (t : tree) : bool := match t with Leaf l => lkind_eqb (lk l) KStr | _ => false end.
-Fixpoint jshape (t : tree) : bool :=
-  match t with
-  | Leaf _ => true
-  | Lst _ _ cs => forallb (fun c => negb (is_kvp c) && jshape c) cs
-  | Kvp _ k v => is_str_leaf k && negb (is_kvp v) && jshape v
-  | MSet _ cs | FDict cs => forallb (fun c => is_kvp c && jshape c) cs
-  end.
 
 Lemma leaf_text_jp : forall lay n l, leaf_text l = jp lay n (leaf_value l).
 Proof.
@@ -1671,4 +1649,890 @@ Proof.
   intro lay. destruct C06_hypotheses_inhabited as [H1 [H2 [H3 [H4 [H5 [H6 [H7 [_ [_ [H8 _]]]]]]]]]].
   destruct (C06_reads_ordered_all lay ex_a ex_b ex_e H1 H2 H3 H8 H4 H5 H6 H7) as [Ga Gb].
   split; [apply Ga|apply Gb]; reflexivity.
+Qed.
+
+(* ================================================================== mappings: documents up to the order of members *)
+
+(* ------------------------------------------------------------------ the order on keys; sorting is insensitive to
+   the order of members with different keys *)
+Lemma zlist_eqb_refl : forall s, zlist_eqb s s = true.
+Proof. induction s as [|x s IH]; cbn; [reflexivity|]. rewrite Z.eqb_refl. exact IH. Qed.
+
+Lemma zlist_eqb_eq : forall a b, zlist_eqb a b = true -> a = b.
+Proof.
+  induction a as [|x a IH]; destruct b as [|y b]; cbn; intro H; try discriminate; [reflexivity|].
+  apply andb_prop in H as [H1 H2]. apply Z.eqb_eq in H1. f_equal; auto.
+Qed.
+
+Lemma zlist_leb_total : forall a b, zlist_leb a b = true \/ zlist_leb b a = true.
+Proof.
+  induction a as [|x a IH]; destruct b as [|y b]; cbn; auto.
+  destruct (Z.ltb_spec x y), (Z.ltb_spec y x), (Z.eqb_spec x y), (Z.eqb_spec y x); cbn; auto; lia.
+Qed.
+
+Lemma zlist_leb_trans : forall a b c, zlist_leb a b = true -> zlist_leb b c = true -> zlist_leb a c = true.
+Proof.
+  induction a as [|x a IH]; intros [|y b] [|z c] H1 H2; cbn in *; try discriminate; auto.
+  destruct (Z.ltb_spec x y), (Z.eqb_spec x y), (Z.ltb_spec y z), (Z.eqb_spec y z), (Z.ltb_spec x z), (Z.eqb_spec x z);
+    cbn in *; try lia; try discriminate; try reflexivity. eapply IH; eassumption.
+Qed.
+
+Lemma zlist_leb_antisym : forall a b, zlist_leb a b = true -> zlist_leb b a = true -> a = b.
+Proof.
+  induction a as [|x a IH]; intros [|y b] H1 H2; cbn in *; try discriminate; auto.
+  destruct (Z.ltb_spec x y), (Z.eqb_spec x y), (Z.ltb_spec y x), (Z.eqb_spec y x);
+    cbn in *; try lia; try discriminate. subst. f_equal. apply IH; assumption.
+Qed.
+
+Lemma ins_member_comm : forall x y l, fst x <> fst y ->
+  ins_member x (ins_member y l) = ins_member y (ins_member x l).
+Proof.
+  intros x y l Hne.
+  assert (Hxy : zlist_leb (fst x) (fst y) = negb (zlist_leb (fst y) (fst x))).
+  { destruct (zlist_leb (fst x) (fst y)) eqn:E1, (zlist_leb (fst y) (fst x)) eqn:E2; try reflexivity.
+    - exfalso. apply Hne. apply zlist_leb_antisym; assumption.
+    - destruct (zlist_leb_total (fst x) (fst y)); congruence. }
+  induction l as [|h t IH].
+  - cbn. rewrite Hxy. destruct (zlist_leb (fst y) (fst x)); reflexivity.
+  - cbn [ins_member].
+    destruct (zlist_leb (fst y) (fst h)) eqn:Eyh, (zlist_leb (fst x) (fst h)) eqn:Exh; cbn [ins_member];
+      rewrite ?Eyh, ?Exh.
+    + rewrite Hxy. destruct (zlist_leb (fst y) (fst x)); cbn [negb]; rewrite ?Eyh, ?Exh; reflexivity.
+    + assert (E : zlist_leb (fst x) (fst y) = false).
+      { destruct (zlist_leb (fst x) (fst y)) eqn:E; [|reflexivity].
+        rewrite (zlist_leb_trans _ _ _ E Eyh) in Exh. discriminate. }
+      rewrite E. reflexivity.
+    + assert (E : zlist_leb (fst y) (fst x) = false).
+      { destruct (zlist_leb (fst y) (fst x)) eqn:E; [|reflexivity].
+        rewrite (zlist_leb_trans _ _ _ E Exh) in Eyh. discriminate. }
+      rewrite E. reflexivity.
+    + rewrite IH. reflexivity.
+Qed.
+
+Lemma sort_members_perm : forall l l', Permutation l l' -> NoDup (map fst l) -> sort_members l = sort_members l'.
+Proof.
+  intros l l' H. induction H as [|x l l' H IH|x y l|l l' l'' H1 IH1 H2 IH2]; intro Hnd.
+  - reflexivity.
+  - unfold sort_members in *. cbn [fold_right]. f_equal. apply IH. inversion Hnd; assumption.
+  - unfold sort_members. cbn [fold_right]. apply ins_member_comm.
+    cbn in Hnd. inversion Hnd as [|? ? Hy _]; subst. intro E. apply Hy. left. symmetry. exact E.
+  - rewrite IH1 by exact Hnd. apply IH2.
+    apply (Permutation_NoDup (Permutation_map fst H1)). exact Hnd.
+Qed.
+
+Lemma jv_eqb_refl : forall v, jv_eqb v v = true.
+Proof.
+  induction v as [| b | t | s | l IHl | kvs IHk] using jvalue_ind2; cbn [jv_eqb]; try reflexivity.
+  - destruct b; reflexivity.
+  - apply zlist_eqb_refl.
+  - apply zlist_eqb_refl.
+  - induction IHl as [|x r Hx _ IH]; [reflexivity|]. rewrite Hx. exact IH.
+  - induction IHk as [|[k x] r Hx _ IH]; [reflexivity|]. cbn [snd] in Hx. rewrite zlist_eqb_refl, Hx. exact IH.
+Qed.
+
+Lemma jwfb_canon_eq : forall j5 v, jwfb j5 (canon v) = jwfb j5 v.
+Proof.
+  intros j5. induction v as [| b | t | s | l IHl | kvs IHk] using jvalue_ind2; cbn [canon jwfb]; try reflexivity.
+  - induction IHl as [|x r Hx _ IH]; [reflexivity|]. cbn [map forallb]. rewrite Hx, IH. reflexivity.
+  - rewrite forallb_sort. induction IHk as [|[k x] r Hx _ IH]; [reflexivity|].
+    cbn [map forallb snd] in *. rewrite Hx, IH. reflexivity.
+Qed.
+
+(* ------------------------------------------------------------------ a tree as a mapping member: its key and its
+   document up to member order *)
+Definition mkey (t : tree) : list Z := match t with Kvp _ (Leaf k) _ => ltext k | _ => [] end.
+Definition cv (t : tree) : jvalue := canon (value_of t).
+Definition cm (t : tree) : list Z * jvalue := (mkey t, cv t).
+
+Lemma value_of_members : forall cs,
+  map (fun c => match c with
+                | Kvp _ (Leaf k) v => (ltext k, value_of v)
+                | _ => ([], value_of c)
+                end) cs = map (fun c => (mkey c, value_of c)) cs.
+Proof. intro cs. apply map_ext. intros [l|x y cs'|x k v|x cs'|cs']; try reflexivity. destruct k; reflexivity. Qed.
+
+Lemma value_of_mset : forall x cs, value_of (MSet x cs) = JObj (map (fun c => (mkey c, value_of c)) cs).
+Proof. intros. cbn [value_of]. rewrite value_of_members. reflexivity. Qed.
+Lemma value_of_fdict : forall cs, value_of (FDict cs) = JObj (map (fun c => (mkey c, value_of c)) cs).
+Proof. intros. cbn [value_of]. rewrite value_of_members. reflexivity. Qed.
+
+Lemma cv_members : forall cs,
+  canon (JObj (map (fun c => (mkey c, value_of c)) cs)) = JObj (sort_members (map cm cs)).
+Proof. intro cs. cbn [canon]. rewrite map_map. reflexivity. Qed.
+
+Lemma cv_mset : forall x cs, cv (MSet x cs) = JObj (sort_members (map cm cs)).
+Proof. intros. unfold cv. rewrite value_of_mset. apply cv_members. Qed.
+Lemma cv_fdict : forall cs, cv (FDict cs) = JObj (sort_members (map cm cs)).
+Proof. intros. unfold cv. rewrite value_of_fdict. apply cv_members. Qed.
+Lemma cv_lst : forall x y cs, cv (Lst x y cs) = JArr (map cv cs).
+Proof. intros. unfold cv. cbn [value_of canon]. rewrite map_map. reflexivity. Qed.
+Lemma cv_kvp : forall x k v, cv (Kvp x k v) = cv v.
+Proof. reflexivity. Qed.
+Lemma cv_leaf : forall l, cv (Leaf l) = leaf_value l.
+Proof. intro l. unfold cv. cbn [value_of]. unfold leaf_value. destruct (lk l); reflexivity. Qed.
+
+(* JSON-shaped, and no mapping of the document has two members with the same key *)
+Definition good (t : tree) : Prop := jshape t = true /\ keys_uniqueb (value_of t) = true.
+
+Lemma keys_distinct_NoDup : forall ks, JsonSpec.keys_distinct ks = true -> NoDup ks.
+Proof.
+  induction ks as [|k r IH]; cbn; intro H; [constructor|]. apply andb_prop in H as [H1 H2].
+  constructor; [|apply IH; exact H2]. intro Hin. apply negb_true_iff in H1.
+  assert (existsb (zlist_eqb k) r = true) by (apply existsb_exists; exists k; split; [exact Hin|apply zlist_eqb_refl]).
+  congruence.
+Qed.
+
+Lemma ku_members : forall cs, keys_uniqueb (JObj (map (fun c => (mkey c, value_of c)) cs)) = true ->
+  NoDup (map mkey cs) /\ forall c, In c cs -> keys_uniqueb (value_of c) = true.
+Proof.
+  intros cs H. cbn [keys_uniqueb] in H. apply andb_prop in H as [H1 H2]. rewrite map_map in H1. cbn [fst] in H1. split.
+  - apply keys_distinct_NoDup. exact H1.
+  - intros c Hc. rewrite forallb_forall in H2. apply (H2 (mkey c, value_of c)). apply in_map_iff. exists c. auto.
+Qed.
+
+Lemma leaf_value_ku : forall l, keys_uniqueb (leaf_value l) = true.
+Proof. intro l. unfold leaf_value. destruct (lk l); reflexivity. Qed.
+
+Lemma good_in : forall a c, good a -> In c (children a) -> good c.
+Proof.
+  intros a c [Hs Hu] Hin. destruct a as [l|x y cs|x k v|x cs|cs]; cbn [children] in Hin.
+  - destruct Hin.
+  - cbn in Hs, Hu. rewrite forallb_forall in Hs, Hu. specialize (Hs c Hin). apply andb_prop in Hs as [_ Hs].
+    split; [exact Hs|]. apply Hu. apply in_map. exact Hin.
+  - cbn in Hs, Hu. apply andb_prop in Hs as [Hs H3]. apply andb_prop in Hs as [H1 H2].
+    destruct Hin as [<-|[<-|[]]].
+    + destruct k as [l|? ? ?|? ? ?|? ?|?]; try discriminate. split; [reflexivity|apply leaf_value_ku].
+    + split; assumption.
+  - rewrite value_of_mset in Hu. destruct (ku_members cs Hu) as [_ Hk]. cbn in Hs. rewrite forallb_forall in Hs.
+    specialize (Hs c Hin). apply andb_prop in Hs as [_ Hs]. split; [exact Hs|apply Hk; exact Hin].
+  - rewrite value_of_fdict in Hu. destruct (ku_members cs Hu) as [_ Hk]. cbn in Hs. rewrite forallb_forall in Hs.
+    specialize (Hs c Hin). apply andb_prop in Hs as [_ Hs]. split; [exact Hs|apply Hk; exact Hin].
+Qed.
+
+Lemma good_child : forall a i, good a -> good (child a i).
+Proof.
+  intros a i H. unfold child. destruct (nth_in_or_default i (children a) dummy) as [Hin|Hd].
+  - eapply good_in; eauto.
+  - rewrite Hd. split; reflexivity.
+Qed.
+
+(* p spells the same member as d *)
+Definition same (p d : tree) : Prop := is_kvp p = is_kvp d /\ cm p = cm d /\ jshape p = true.
+Definition alike (a b : tree) : Prop := is_kvp a = is_kvp b /\ cm a = cm b.
+
+Lemma same_refl : forall d, jshape d = true -> same d d.
+Proof. intros d H. repeat split; auto. Qed.
+
+Lemma same_of_alike : forall a b, alike a b -> jshape a = true -> same a b.
+Proof. intros a b [H1 H2] H. repeat split; auto. Qed.
+
+Lemma same_of_alike_sym : forall a b, alike a b -> jshape b = true -> same b a.
+Proof. intros a b [H1 H2] H. repeat split; auto. Qed.
+
+Lemma Forall2_same_cv : forall ps ds, Forall2 same ps ds -> map cv ps = map cv ds.
+Proof.
+  intros ps ds H. induction H as [|p d ps ds [_ [Hc _]] _ IH]; [reflexivity|]. cbn [map]. rewrite IH. f_equal.
+  unfold cm in Hc. inversion Hc. reflexivity.
+Qed.
+
+Lemma Forall2_same_cm : forall ps ds, Forall2 same ps ds -> map cm ps = map cm ds.
+Proof.
+  intros ps ds H. induction H as [|p d ps ds [_ [Hc _]] _ IH]; [reflexivity|]. cbn [map]. rewrite IH, Hc. reflexivity.
+Qed.
+
+Lemma same_lst : forall x y x' y' ps ds, Forall2 same ps ds -> jshape (Lst x' y' ds) = true ->
+  same (Lst x y ps) (Lst x' y' ds).
+Proof.
+  intros x y x' y' ps ds H Hs. split; [reflexivity|]. split.
+  - unfold cm. cbn [mkey]. rewrite !cv_lst, (Forall2_same_cv ps ds H). reflexivity.
+  - cbn [jshape] in *. rewrite forallb_forall in Hs. apply forallb_forall. intros p Hp.
+    destruct (Forall2_in_l _ _ _ _ H Hp) as [d [Hd [Hk [_ Hj]]]]. specialize (Hs d Hd).
+    apply andb_prop in Hs as [Hs _]. rewrite Hk, Hs, Hj. reflexivity.
+Qed.
+
+Lemma same_members : forall ps ds' ds, Forall2 same ps ds' -> Permutation ds' ds -> NoDup (map mkey ds) ->
+  forallb (fun c => is_kvp c && jshape c) ds = true ->
+  sort_members (map cm ps) = sort_members (map cm ds) /\ forallb (fun c => is_kvp c && jshape c) ps = true.
+Proof.
+  intros ps ds' ds H Hp Hnd Hs. split.
+  - rewrite (Forall2_same_cm ps ds' H). symmetry. apply sort_members_perm.
+    + apply Permutation_map. apply Permutation_sym. exact Hp.
+    + rewrite map_map. exact Hnd.
+  - rewrite forallb_forall in Hs. apply forallb_forall. intros p Hin.
+    destruct (Forall2_in_l _ _ _ _ H Hin) as [d [Hd [Hk [_ Hj]]]].
+    specialize (Hs d (Permutation_in d Hp Hd)). apply andb_prop in Hs as [Hs _]. rewrite Hk, Hs, Hj. reflexivity.
+Qed.
+
+Lemma same_mset : forall x x' ps ds' ds, Forall2 same ps ds' -> Permutation ds' ds -> good (MSet x' ds) ->
+  same (MSet x ps) (MSet x' ds).
+Proof.
+  intros x x' ps ds' ds H Hp [Hs Hu]. rewrite value_of_mset in Hu. destruct (ku_members ds Hu) as [Hnd _].
+  cbn [jshape] in Hs. destruct (same_members ps ds' ds H Hp Hnd Hs) as [E1 E2].
+  split; [reflexivity|]. split; [|exact E2]. unfold cm. cbn [mkey]. rewrite !cv_mset, E1. reflexivity.
+Qed.
+
+Lemma same_fdict : forall ps ds' ds, Forall2 same ps ds' -> Permutation ds' ds -> good (FDict ds) ->
+  same (FDict ps) (FDict ds).
+Proof.
+  intros ps ds' ds H Hp [Hs Hu]. rewrite value_of_fdict in Hu. destruct (ku_members ds Hu) as [Hnd _].
+  cbn [jshape] in Hs. destruct (same_members ps ds' ds H Hp Hnd Hs) as [E1 E2].
+  split; [reflexivity|]. split; [|exact E2]. unfold cm. cbn [mkey]. rewrite !cv_fdict, E1. reflexivity.
+Qed.
+
+(* a non-pair whose document is a string is a string leaf *)
+Lemma cv_str_inv : forall p s, is_kvp p = false -> cv p = JStr s -> exists l, p = Leaf l /\ lk l = KStr /\ ltext l = s.
+Proof.
+  intros p s Hk H. destruct p as [l|x y cs|x k v|x cs|cs]; try discriminate.
+  rewrite cv_leaf in H. unfold leaf_value in H. destruct (lk l) eqn:E; try discriminate. inversion H. eauto.
+Qed.
+
+Lemma same_kvp : forall x x' pk pv kd vd, same pk kd -> same pv vd -> jshape (Kvp x' kd vd) = true ->
+  same (Kvp x pk pv) (Kvp x' kd vd).
+Proof.
+  intros x x' pk pv kd vd [Hk1 [Hk2 Hk3]] [Hv1 [Hv2 Hv3]] Hs. cbn [jshape] in Hs.
+  apply andb_prop in Hs as [Hs H3]. apply andb_prop in Hs as [H1 H2].
+  destruct kd as [l|? ? ?|? ? ?|? ?|?]; try discriminate. cbn in H1.
+  assert (Hl : lk l = KStr) by (destruct (lk l); try discriminate; reflexivity).
+  unfold cm in Hk2. inversion Hk2 as [[Hm Hc]]. rewrite (cv_leaf l) in Hc. unfold leaf_value in Hc. rewrite Hl in Hc.
+  destruct (cv_str_inv pk (ltext l) Hk1 Hc) as [l' [-> [Hl' Ht]]].
+  unfold cm in Hv2. inversion Hv2 as [[Hm' Hc']].
+  split; [reflexivity|]. split.
+  - unfold cm. cbn [mkey]. rewrite !cv_kvp, Hc', Ht. reflexivity.
+  - cbn [jshape is_str_leaf]. rewrite Hl', Hv1, Hv3. apply negb_true_iff in H2. rewrite H2. reflexivity.
+Qed.
+
+(* ------------------------------------------------------------------ what C01 does not say, for all containers:
+   a pair matched at cost 0 is the same member on both sides up to R, and a string edit is between two strings
+   and costs something *)
+Fixpoint FaithG (R : tree -> tree -> Prop) (a b : tree) (e : edit) {struct e} : Prop :=
+  match e with
+  | EMatch c | EReplace c => 0 < c \/ R a b
+  | EStr c _ => 0 < c /\ match a, b with Leaf x, Leaf y => lk x = KStr /\ lk y = KStr | _, _ => False end
+  | EComp _ _ subs =>
+      (fix all (ss : list sub) : Prop :=
+         match ss with
+         | [] => True
+         | SPair i j e' :: r => FaithG R (child a i) (child b j) e' /\ all r
+         | _ :: r => all r
+         end) subs
+  end.
+
+Definition Fair : tree -> tree -> edit -> Prop := FaithG alike.
+
+Lemma Faithful_FaithG : forall e a b, Faithful a b e -> FaithG (fun x y => ttoks x = ttoks y) a b e.
+Proof.
+  apply (edit_ind2 (fun e => forall a b, Faithful a b e -> FaithG (fun x y => ttoks x = ttoks y) a b e)).
+  - intros c a b H. exact H.
+  - intros c a b H. exact H.
+  - intros c ops a b H. exact H.
+  - intros k c subs IH a b H. cbn [Faithful FaithG] in *.
+    induction IH as [|s subs Hs _ IH']; [exact I|].
+    destruct s as [i j e'|i x|j x]; [|apply IH'; exact H|apply IH'; exact H].
+    destruct H as [H1 H2]. split; [apply Hs; exact H1|apply IH'; exact H2].
+Qed.
+
+(* (2) string edits spell non-negative code points: a consequence of C01 and the documents *)
+Lemma nonneg_sop_ok : forall ops, nonneg (flat_map sop_from ops) = true -> nonneg (flat_map sop_to ops) = true ->
+  forallb sop_ok ops = true.
+Proof.
+  induction ops as [|o ops IH]; intros H1 H2; [reflexivity|].
+  cbn [flat_map] in H1, H2. rewrite nonneg_app in H1, H2.
+  apply andb_prop in H1 as [H1 H1']. apply andb_prop in H2 as [H2 H2'].
+  cbn [forallb]. unfold sop_ok at 1. rewrite H1, H2, (IH H1' H2'). reflexivity.
+Qed.
+
+Theorem valid_edit_ok : forall R e a b, tok_ok a = true -> tok_ok b = true -> valid a b e = true -> FaithG R a b e ->
+  edit_ok e = true.
+Proof.
+  intro R.
+  apply (edit_ind2 (fun e => forall a b, tok_ok a = true -> tok_ok b = true -> valid a b e = true -> FaithG R a b e ->
+                                         edit_ok e = true)).
+  - reflexivity.
+  - reflexivity.
+  - intros c ops a b Ha Hb Hv Hf. cbn [valid FaithG] in Hv, Hf. destruct Hf as [_ Hf].
+    destruct a as [x| | | |]; try contradiction. destruct b as [y| | | |]; try contradiction. destruct Hf as [Hx Hy].
+    apply andb_prop in Hv as [H1 H2]. apply str_eqb_eq in H1, H2.
+    cbn in Ha, Hb. unfold leaf_ok in Ha, Hb. rewrite Hx in Ha. rewrite Hy in Hb.
+    cbn [edit_ok]. apply nonneg_sop_ok; [rewrite H1; exact Ha|rewrite H2; exact Hb].
+  - intros k c subs IH a b Ha Hb Hv Hf. cbn [valid] in Hv. apply andb_prop in Hv as [_ Hv].
+    cbn [FaithG] in Hf. cbn [edit_ok].
+    induction IH as [|s subs Hs _ IH']; [reflexivity|].
+    destruct s as [i j e'|i x|j x]; [|apply IH'; assumption|apply IH'; assumption].
+    destruct (nth_error (children a) i) as [x|] eqn:Ei; [|discriminate].
+    destruct (nth_error (children b) j) as [y|] eqn:Ej; [|discriminate].
+    apply andb_prop in Hv as [Hv1 Hv]. destruct Hf as [Hf1 Hf].
+    rewrite (child_nth_error a i x Ei), (child_nth_error b j y Ej) in Hf1.
+    rewrite (Hs x y); auto.
+    + rewrite <- (child_nth_error a i x Ei). apply tok_ok_child. exact Ha.
+    + rewrite <- (child_nth_error b j y Ej). apply tok_ok_child. exact Hb.
+Qed.
+
+(* ------------------------------------------------------------------ (1) the projections ARE the documents up to
+   the order of mapping members *)
+Definition Psame (side : bool) (e : edit) : Prop :=
+  forall a b, good a -> good b -> valid a b e = true -> Fair a b e -> kvp2 e = true ->
+    same (proj side a b e) (if side then b else a).
+
+Lemma proj_node_same : forall side a b e, Psame side e -> good a -> good b -> valid a b e = true -> Fair a b e ->
+  kvp2 e = true ->
+  same (match e with
+        | EComp _ _ _ => proj side a b e
+        | _ => if 0 <? cost e then proj side a b e else a
+        end) (if side then b else a).
+Proof.
+  intros side a b e He Ha Hb Hv Hf Hk2. pose proof (He a b Ha Hb Hv Hf Hk2) as G.
+  destruct e as [c|c|c ops|k c subs]; try exact G; cbn [cost]; destruct (0 <? c) eqn:Ec; try exact G;
+    apply Z.ltb_ge in Ec; cbn in Hf.
+  - destruct Hf as [Hf|Hf]; [lia|]. destruct side; [apply same_of_alike; [exact Hf|apply Ha]|apply same_refl; apply Ha].
+  - destruct Hf as [Hf|Hf]; [lia|]. destruct side; [apply same_of_alike; [exact Hf|apply Ha]|apply same_refl; apply Ha].
+  - destruct Hf as [Hf _]. lia.
+Qed.
+
+Lemma proj_items_same : forall side k a b subs,
+  good a -> good b ->
+  Forall (fun s => match s with SPair _ _ e => Psame side e | _ => True end) subs ->
+  valid a b (EComp k 0 subs) = true -> Fair a b (EComp k 0 subs) -> kvp2 (EComp k 0 subs) = true ->
+  Forall2 same
+    ((fix items (ss : list sub) : list tree :=
+        match ss with
+        | [] => []
+        | SPair i j e' :: r =>
+            match k, e' with
+            | KMultiSet, EMatch c => if 0 <? c then (if side then child b j else child a i) else child a i
+            | _, _ => proj side (child a i) (child b j) e'
+            end :: items r
+        | SRem i _ :: r => if side then items r else child a i :: items r
+        | SIns j _ :: r => if side then child b j :: items r else items r
+        end) subs)
+    (map (child (if side then b else a)) (flat_map (if side then to_idx else from_idx) subs)).
+Proof.
+  intros side k a b subs Ha Hb IH Hv Hf Hk2.
+  cbn [valid] in Hv. apply andb_prop in Hv as [_ Hv].
+  cbn [kvp2] in Hk2. apply andb_prop in Hk2 as [_ Hk2].
+  unfold Fair in Hf. cbn [FaithG] in Hf.
+  induction IH as [|s subs Hs IH IH']; [destruct side; constructor|].
+  destruct s as [i j e'|i x|j x].
+  - destruct (nth_error (children a) i) as [x|] eqn:Ei; [|discriminate].
+    destruct (nth_error (children b) j) as [y|] eqn:Ej; [|discriminate].
+    apply andb_prop in Hv as [Hv1 Hv]. destruct Hf as [Hf1 Hf]. apply andb_prop in Hk2 as [Hk21 Hk2].
+    specialize (IH' Hv Hf Hk2).
+    rewrite <- (child_nth_error a i x Ei) in Hv1. rewrite <- (child_nth_error b j y Ej) in Hv1.
+    pose proof (good_child a i Ha) as Gai. pose proof (good_child b j Hb) as Gbj.
+    pose proof (Hs _ _ Gai Gbj Hv1 Hf1 Hk21) as G.
+    assert (Hhead : same (match k, e' with
+                          | KMultiSet, EMatch c => if 0 <? c then (if side then child b j else child a i) else child a i
+                          | _, _ => proj side (child a i) (child b j) e'
+                          end) (if side then child b j else child a i)).
+    { destruct k; try exact G. destruct e' as [c| | |]; try exact G.
+      destruct (0 <? c) eqn:Ec.
+      - apply same_refl. destruct side; [apply Gbj|apply Gai].
+      - apply Z.ltb_ge in Ec. cbn in Hf1. destruct Hf1 as [Hf1|Hf1]; [lia|].
+        destruct side; [apply same_of_alike; [exact Hf1|apply Gai]|apply same_refl; apply Gai]. }
+    destruct side; cbn [flat_map to_idx from_idx app map]; constructor; assumption.
+  - specialize (IH' Hv Hf Hk2). destruct side; cbn [flat_map to_idx from_idx app map]; [exact IH'|].
+    constructor; [|exact IH']. apply same_refl. apply (good_child a i Ha).
+  - specialize (IH' Hv Hf Hk2). destruct side; cbn [flat_map to_idx from_idx app map]; [|exact IH'].
+    constructor; [|exact IH']. apply same_refl. apply (good_child b j Hb).
+Qed.
+
+Lemma perm_of_sorted_seq : forall l n, sort_nat l = seq 0 n -> Permutation l (seq 0 n).
+Proof. intros l n H. rewrite <- H. apply sort_nat_perm. Qed.
+
+Lemma map_child_perm : forall d idx, Permutation idx (seq 0 (length (children d))) ->
+  Permutation (map (child d) idx) (children d).
+Proof.
+  intros d idx H. eapply Permutation_trans; [apply Permutation_map; exact H|]. rewrite map_child_seq. apply Permutation_refl.
+Qed.
+
+Theorem proj_same : forall side e, Psame side e.
+Proof.
+  intro side. apply edit_ind2; unfold Psame.
+  - intros c a b Ha Hb _ Hf _. cbn [proj]. cbn in Hf. destruct (0 <? c) eqn:Ec.
+    + apply same_refl. destruct side; [apply Hb|apply Ha].
+    + apply Z.ltb_ge in Ec. destruct Hf as [Hf|Hf]; [lia|].
+      destruct side; [apply same_refl; apply Hb|apply same_of_alike_sym; [exact Hf|apply Hb]].
+  - intros c a b Ha Hb _ Hf _. cbn [proj]. cbn in Hf. destruct (0 <? c) eqn:Ec.
+    + apply same_refl. destruct side; [apply Hb|apply Ha].
+    + apply Z.ltb_ge in Ec. destruct Hf as [Hf|Hf]; [lia|].
+      destruct side; [apply same_refl; apply Hb|apply same_of_alike_sym; [exact Hf|apply Hb]].
+  - intros c ops a b _ _ Hv Hf _. cbn in Hv, Hf. destruct Hf as [_ Hf].
+    destruct a as [x| | | |]; try contradiction. destruct b as [y| | | |]; try contradiction.
+    destruct Hf as [Hx Hy]. apply andb_prop in Hv as [H1 H2]. apply str_eqb_eq in H1, H2.
+    cbn [proj]. destruct side; (split; [reflexivity|split; [|reflexivity]]);
+      unfold cm, str_leaf; cbn [mkey]; rewrite !cv_leaf; unfold leaf_value; cbn [lk ltext];
+      [rewrite Hy, H2|rewrite Hx, H1]; reflexivity.
+  - intros k c subs IH a b Ha Hb Hv Hf Hk2.
+    assert (Hk20 : kvp2 (EComp k 0 subs) = true) by exact Hk2.
+    assert (Hv0 : valid a b (EComp k 0 subs) = true) by exact Hv.
+    assert (Hf0 : Fair a b (EComp k 0 subs)) by exact Hf.
+    pose proof (proj_items_same side k a b subs Ha Hb IH Hv0 Hf0 Hk20) as Hitems.
+    cbn [kvp2] in Hk2. apply andb_prop in Hk2 as [Hshape Hk2].
+    cbn [valid] in Hv. apply andb_prop in Hv as [Hv Hall]. apply andb_prop in Hv as [Hfit Hidx].
+    cbn [proj]. destruct (is_seq_kind k) eqn:Ek.
+    + destruct k; try discriminate; destruct a as [l|x y cs|x ka va|x cs|cs]; try discriminate;
+        destruct b as [l'|x' y' ds|x' kb vb|x' ds|ds]; try discriminate; cbn [brackets rebuild];
+        cbn [ordered_kind] in Hidx; apply andb_prop in Hidx as [Hfi Hti]; apply nat_list_eqb_eq in Hfi, Hti.
+      * (* EditDistance *)
+        destruct side; cbn [flat_map] in Hitems.
+        -- rewrite Hti, map_child_seq in Hitems. apply same_lst; [exact Hitems|apply Hb].
+        -- rewrite Hfi, map_child_seq in Hitems. apply same_lst; [exact Hitems|apply Ha].
+      * (* FixedLength *)
+        destruct side; cbn [flat_map] in Hitems.
+        -- rewrite Hti, map_child_seq in Hitems. apply same_lst; [exact Hitems|apply Hb].
+        -- rewrite Hfi, map_child_seq in Hitems. apply same_lst; [exact Hitems|apply Ha].
+      * (* MultiSet *)
+        destruct side.
+        -- eapply same_mset; [exact Hitems| |exact Hb].
+           apply (map_child_perm (MSet x' ds)). apply perm_of_sorted_seq. exact Hti.
+        -- eapply same_mset; [exact Hitems| |exact Ha].
+           apply (map_child_perm (MSet x cs)). apply perm_of_sorted_seq. exact Hfi.
+      * (* FixedKeyDict *)
+        destruct side.
+        -- eapply same_fdict; [exact Hitems| |exact Hb].
+           apply (map_child_perm (FDict ds)). apply perm_of_sorted_seq. exact Hti.
+        -- eapply same_fdict; [exact Hitems| |exact Ha].
+           apply (map_child_perm (FDict cs)). apply perm_of_sorted_seq. exact Hfi.
+    + destruct k; try discriminate.
+      destruct a as [l|x y cs|x ka va|x cs|cs]; try discriminate.
+      destruct b as [l'|x' y' ds|x' kb vb|x' ds|ds]; try discriminate.
+      cbn [ordered_kind] in Hidx. apply andb_prop in Hidx as [Hfi Hti]. apply nat_list_eqb_eq in Hfi, Hti.
+      cbn [children length seq] in Hfi, Hti.
+      cbn [is_seq_kind] in Hshape.
+      destruct subs as [|[i j ke|i z|j z] [|[i' j' ve|i' z'|j' z'] [|s3 rest]]]; try discriminate. cbn in Hfi, Hti.
+      inversion Hfi; inversion Hti; subst i i' j j'.
+      pose proof (Forall_inv IH) as Hke. pose proof (Forall_inv (Forall_inv_tail IH)) as Hve. cbn beta iota in Hke, Hve.
+      cbn in Hall. apply andb_prop in Hall as [Hvk Hall]. apply andb_prop in Hall as [Hvv _].
+      unfold Fair in Hf. cbn in Hf. destruct Hf as [Hfk [Hfv _]].
+      apply andb_prop in Hk2 as [Hkk Hk2]. apply andb_prop in Hk2 as [Hkv _].
+      pose proof (good_child _ 0 Ha) as Gka. pose proof (good_child _ 1 Ha) as Gva.
+      pose proof (good_child _ 0 Hb) as Gkb. pose proof (good_child _ 1 Hb) as Gvb.
+      unfold child in *; cbn [children nth] in *.
+      pose proof (proj_node_same side ka kb ke Hke Gka Gkb Hvk Hfk Hkk) as Sk.
+      pose proof (proj_node_same side va vb ve Hve Gva Gvb Hvv Hfv Hkv) as Sv.
+      destruct side; apply same_kvp; try assumption; [apply Hb|apply Ha].
+Qed.
+
+Theorem nproj_same : forall side a b e, good a -> good b -> valid a b e = true -> Fair a b e -> kvp2 e = true ->
+  same (nproj side a b e) (if side then b else a).
+Proof. intros side a b e Ha Hb Hv Hf Hk. unfold nproj. apply proj_node_same; auto. apply proj_same. Qed.
+
+(* ------------------------------------------------------------------ reading the projections back: the documents *)
+
+(* documents json.loads can produce: JSON-shaped, not a bare key/value pair, JSON-domain value *)
+Definition jdoc (t : tree) : Prop :=
+  jshape t = true /\ is_kvp t = false /\ json_domainb (value_of t) = true.
+
+Lemma jdoc_good : forall t, jdoc t -> good t.
+Proof.
+  intros t [H1 [_ H3]]. unfold json_domainb in H3. apply andb_prop in H3 as [_ H3]. split; assumption.
+Qed.
+
+Lemma no_marks_iff : forall s, no_marks s = true <-> marks s = [].
+Proof. intro s. unfold no_marks. destruct (marks s); split; intro H; try reflexivity; discriminate. Qed.
+
+Theorem C06_text_all : forall lay a b e,
+  tok_ok a = true -> tok_ok b = true -> clean false a e = true ->
+  valid a b e = true -> Fair a b e -> kvp2 e = true -> jdoc a -> jdoc b ->
+  reads_as (erase Inserted (jrender lay a b e)) a = true /\
+  reads_as (erase Removed (jrender lay a b e)) b = true.
+Proof.
+  intros lay a b e Ha Hb Hc Hv Hf Hk Da Db.
+  pose proof (valid_edit_ok alike e a b Ha Hb Hv Hf) as He.
+  assert (G : forall side, reads_as (erase (em side) (jrender lay a b e)) (if side then b else a) = true).
+  { intro side. pose proof (nproj_same side a b e (jdoc_good a Da) (jdoc_good b Db) Hv Hf Hk) as [S1 [S2 S3]].
+    assert (Dd : jdoc (if side then b else a)) by (destruct side; assumption).
+    destruct Dd as [D1 [D2 D3]]. unfold json_domainb in D3. apply andb_prop in D3 as [D3 _].
+    pose proof (f_equal snd S2) as Hcv. unfold cm, cv in Hcv. cbn [snd] in Hcv.
+    assert (Hw : jwfb false (value_of (nproj side a b e)) = true).
+    { rewrite <- jwfb_canon_eq, Hcv, jwfb_canon_eq. exact D3. }
+    unfold reads_as. rewrite (C06_reads_all side lay a b e Ha Hb He Hc S3 (eq_trans S1 D2) Hw).
+    unfold jv_equiv. rewrite Hcv. apply jv_eqb_refl. }
+  split; [exact (G false)|exact (G true)].
+Qed.
+
+(* ================================================================== (3) well-priced scripts
+   Faithful / Fair and pos_costs are consequences of how the edit classes price their edits (EqualSpec.priced,
+   proved of the model's scripts in EqualProofs.script_priced and evaluated on the implementation's scripts by
+   C02) outside the classes of the open findings D4 (EqualSpec.typed) and D16 (EqualSpec.nozero). *)
+
+
+Lemma shaped_kvp2 : forall e a b, shaped a b e = true -> kvp2 e = true.
+Proof.
+  apply (edit_ind2 (fun e => forall a b, shaped a b e = true -> kvp2 e = true)); try reflexivity.
+  intros k c subs IH a b H. cbn [shaped] in H. apply andb_prop in H as [H1 H2]. cbn [kvp2]. rewrite H1. cbn [andb].
+  clear H1. induction IH as [|s subs Hs _ IH']; [reflexivity|].
+  destruct s as [i j e'|i x|j x]; [|apply IH'; exact H2|apply IH'; exact H2].
+  destruct (nth_error (children a) i) as [x|]; [|discriminate]. destruct (nth_error (children b) j) as [y|]; [|discriminate].
+  apply andb_prop in H2 as [H2 H3]. rewrite (Hs x y H2). apply IH'. exact H3.
+Qed.
+
+Lemma lkind_eqb_true : forall a b, lkind_eqb a b = true -> a = b.
+Proof. intros [] []; cbn; intro H; try discriminate; reflexivity. Qed.
+
+Lemma typed_in : forall a b c d, In c (children a) -> In d (children b) -> typed a b = true -> typed c d = true.
+Proof.
+  intros a b c d Hc Hd H. unfold typed in *. rewrite forallb_forall in *. intros x Hx.
+  specialize (H x (leaves_child a c Hc x Hx)). rewrite forallb_forall in *. intros y Hy. apply H.
+  apply (leaves_child b d Hd). exact Hy.
+Qed.
+
+(* nodes that are == are the same member of a mapping, unless two of their scalars are Python-equal without
+   being equal as data (finding D4) *)
+Definition Pna (a : tree) : Prop :=
+  forall b, good a -> good b -> typed a b = true -> node_eqb a b = true -> alike a b.
+
+Lemma members_alike : forall cs ds, Forall Pna cs ->
+  (forall c, In c cs -> good c) -> (forall d, In d ds -> good d) ->
+  (forall c d, In c cs -> In d ds -> typed c d = true) ->
+  NoDup (map mkey cs) -> Nat.eqb (length cs) (length ds) = true ->
+  (fix all (xs : list tree) : bool :=
+     match xs with [] => true | x :: xs' => existsb (fun y => node_eqb x y) ds && all xs' end) cs = true ->
+  sort_members (map cm cs) = sort_members (map cm ds).
+Proof.
+  intros cs ds IH Gc Gd Ht Hnd Hlen Hall.
+  assert (Hincl : incl (map cm cs) (map cm ds)).
+  { clear Hnd Hlen. intros m Hm. apply in_map_iff in Hm. destruct Hm as [c [<- Hc]].
+    rewrite Forall_forall in IH.
+    assert (Hex : existsb (fun y => node_eqb c y) ds = true).
+    { clear -Hall Hc. induction cs as [|c0 cs IHc]; [destruct Hc|]. apply andb_prop in Hall as [H1 H2].
+      destruct Hc as [->|Hc]; [exact H1|apply IHc; assumption]. }
+    apply existsb_exists in Hex. destruct Hex as [d [Hd Hn]].
+    destruct (IH c Hc d (Gc c Hc) (Gd d Hd) (Ht c d Hc Hd) Hn) as [_ E]. rewrite E. apply in_map. exact Hd. }
+  assert (Hnd' : NoDup (map fst (map cm cs))) by (rewrite map_map; exact Hnd).
+  apply sort_members_perm; [|exact Hnd'].
+  apply NoDup_Permutation_bis; [eapply NoDup_map_inv; exact Hnd'| |exact Hincl].
+  apply Nat.eqb_eq in Hlen. rewrite !map_length. lia.
+Qed.
+
+Theorem node_alike : forall a, Pna a.
+Proof.
+  apply tree_ind2; unfold Pna.
+  - intros x [y| | | |] _ _ Ht Hn; try discriminate. split; [reflexivity|].
+    unfold cm. cbn [mkey]. rewrite !cv_leaf. f_equal.
+    cbn in Hn. unfold typed in Ht. cbn in Ht. rewrite Hn in Ht. cbn in Ht. rewrite !andb_true_r in Ht.
+    unfold leaf_data_eqb in Ht. apply andb_prop in Ht as [Hk Hte]. apply lkind_eqb_true in Hk.
+    unfold leaf_value. rewrite <- Hk. destruct (lk x); cbn in Hte; try (apply str_eqb_eq in Hte; rewrite Hte); reflexivity.
+  - intros ale alsl cs IH [y|ale' alsl' ds| | |] Ga Gb Ht Hn; try discriminate. split; [reflexivity|].
+    unfold cm. cbn [mkey]. rewrite !cv_lst. f_equal. f_equal. cbn [node_eqb] in Hn.
+    assert (Hsub : forall c d, In c cs -> In d ds -> good c /\ good d /\ typed c d = true).
+    { intros c d Hc Hd. split; [eapply good_in; [exact Ga|exact Hc]|]. split; [eapply good_in; [exact Gb|exact Hd]|].
+      eapply typed_in; [| |exact Ht]; assumption. }
+    clear Ga Gb Ht. revert ds Hn Hsub. induction IH as [|c cs Hpc _ IHcs]; intros [|d ds] Hn Hsub; try discriminate; [reflexivity|].
+    apply andb_prop in Hn as [H1 H2]. cbn [map].
+    destruct (Hsub c d (or_introl eq_refl) (or_introl eq_refl)) as [Gc [Gd Htcd]].
+    destruct (Hpc d Gc Gd Htcd H1) as [_ E]. apply (f_equal snd) in E. cbn [cm snd] in E. rewrite E. f_equal.
+    apply IHcs; [exact H2|]. intros c' d' Hc' Hd'. apply Hsub; right; assumption.
+  - intros ake k v IHk IHv [y| |ake' k' v'| |] Ga Gb Ht Hn; try discriminate. split; [reflexivity|].
+    cbn [node_eqb] in Hn. apply andb_prop in Hn as [Hnk Hnv].
+    assert (Gv : good v) by (eapply good_in; [exact Ga|cbn; auto]).
+    assert (Gv' : good v') by (eapply good_in; [exact Gb|cbn; auto]).
+    assert (Htv : typed v v' = true) by (eapply typed_in; [| |exact Ht]; cbn; auto).
+    destruct (IHv v' Gv Gv' Htv Hnv) as [_ Ev]. apply (f_equal snd) in Ev. cbn [cm snd] in Ev.
+    destruct Ga as [Sa _], Gb as [Sb _]. cbn [jshape] in Sa, Sb.
+    apply andb_prop in Sa as [Sa _]. apply andb_prop in Sa as [Sa _].
+    apply andb_prop in Sb as [Sb _]. apply andb_prop in Sb as [Sb _].
+    destruct k as [l| | | |]; try discriminate. destruct k' as [l'| | | |]; try discriminate.
+    cbn in Sa, Sb, Hnk. unfold py_eqb in Hnk.
+    destruct (lk l); try discriminate. destruct (lk l'); try discriminate. apply str_eqb_eq in Hnk.
+    unfold cm. cbn [mkey]. rewrite !cv_kvp, Ev, Hnk. reflexivity.
+  - intros amk cs IH [y| | |amk' ds|] Ga Gb Ht Hn; try discriminate. split; [reflexivity|].
+    cbn [node_eqb] in Hn. apply andb_prop in Hn as [Hl Hall].
+    unfold cm. cbn [mkey]. rewrite !cv_mset. f_equal. f_equal.
+    apply members_alike; auto.
+    + intros c Hc. eapply good_in; [exact Ga|exact Hc].
+    + intros d Hd. eapply good_in; [exact Gb|exact Hd].
+    + intros c d Hc Hd. eapply typed_in; [| |exact Ht]; assumption.
+    + destruct Ga as [_ Hu]. rewrite value_of_mset in Hu. apply (ku_members cs Hu).
+  - intros cs IH [y| | | |ds] Ga Gb Ht Hn; try discriminate. split; [reflexivity|].
+    cbn [node_eqb] in Hn. apply andb_prop in Hn as [Hl Hall].
+    unfold cm. cbn [mkey]. rewrite !cv_fdict. f_equal. f_equal.
+    apply members_alike; auto.
+    + intros c Hc. eapply good_in; [exact Ga|exact Hc].
+    + intros d Hd. eapply good_in; [exact Gb|exact Hd].
+    + intros c d Hc Hd. eapply typed_in; [| |exact Ht]; assumption.
+    + destruct Ga as [_ Hu]. rewrite value_of_fdict in Hu. apply (ku_members cs Hu).
+Qed.
+
+(* priced + shaped scripts are Fair outside D4 *)
+Definition Pfair (e : edit) : Prop :=
+  forall a b, good a -> good b -> typed a b = true -> valid a b e = true -> priced a b e = true -> shaped a b e = true ->
+    Fair a b e.
+
+Theorem priced_fair : forall e, Pfair e.
+Proof.
+  apply edit_ind2; unfold Pfair, Fair.
+  - intros c a b Ga Gb Ht _ Hp _. cbn [priced] in Hp. apply andb_prop in Hp as [H0 H1]. apply Z.leb_le in H0. cbn [FaithG].
+    destruct (Z.eqb_spec c 0) as [->|Hne]; [right; apply node_alike; assumption|left; lia].
+  - intros c a b _ _ _ _ Hp _. cbn in *. left. apply Z.ltb_lt. exact Hp.
+  - intros c ops a b _ _ _ _ Hp Hs. cbn in *. split; [apply Z.ltb_lt; exact Hp|].
+    destruct a as [x| | | |]; try discriminate. destruct b as [y| | | |]; try discriminate.
+    apply andb_prop in Hs as [H1 H2]. split; apply lkind_eqb_true; assumption.
+  - intros k c subs IH a b Ga Gb Ht Hv Hp Hs.
+    cbn [valid] in Hv. apply andb_prop in Hv as [_ Hv]. cbn [priced] in Hp. cbn [shaped] in Hs. apply andb_prop in Hs as [_ Hs].
+    cbn [FaithG]. induction IH as [|s subs Hsub _ IH']; [exact I|].
+    destruct s as [i j e'|i x|j x].
+    + destruct (nth_error (children a) i) as [x|] eqn:Ei; [|discriminate].
+      destruct (nth_error (children b) j) as [y|] eqn:Ej; [|discriminate].
+      apply andb_prop in Hv as [Hv1 Hv]. apply andb_prop in Hp as [Hp1 Hp]. apply andb_prop in Hs as [Hs1 Hs].
+      rewrite (child_nth_error a i x Ei), (child_nth_error b j y Ej).
+      pose proof (nth_error_In _ _ Ei) as Hxi. pose proof (nth_error_In _ _ Ej) as Hyi.
+      split; [|apply IH'; assumption].
+      assert (Gx : good x) by exact (good_in a x Ga Hxi). assert (Gy : good y) by exact (good_in b y Gb Hyi).
+      assert (Txy : typed x y = true) by (eapply typed_in; [| |exact Ht]; assumption).
+      apply Hsub; assumption.
+    + destruct (nth_error (children a) i); [|discriminate]. apply andb_prop in Hp as [_ Hp]. apply IH'; assumption.
+    + destruct (nth_error (children b) j); [|discriminate]. apply andb_prop in Hp as [_ Hp]. apply IH'; assumption.
+Qed.
+
+(* priced scripts have positive removals and insertions outside D16 *)
+Lemma nozero_in : forall a c, nozero a = true -> In c (children a) -> nozero c = true.
+Proof.
+  intros a c H Hin. destruct a as [l|x y cs|x k v|x cs|cs]; cbn [children nozero] in *.
+  - destruct Hin.
+  - apply andb_prop in H as [_ H]. rewrite forallb_forall in H. apply H. exact Hin.
+  - apply andb_prop in H as [H1 H2]. destruct Hin as [<-|[<-|[]]]; assumption.
+  - rewrite forallb_forall in H. apply H. exact Hin.
+  - rewrite forallb_forall in H. apply H. exact Hin.
+Qed.
+
+Lemma priced_leftover_pos : forall k a b x c, numtext_ok a = true -> nozero a = true ->
+  (pen_of k a b = 0 -> exists x' y' cs, a = Lst x' y' cs /\ all_leaves cs = true) ->
+  In x (children a) -> size x + pen_of k a b <= c -> 0 < c.
+Proof.
+  intros k a b x c Hn Hz Hlst Hin Hle. pose proof (size_nonneg x) as Hs.
+  destruct (pen_of_range k a b) as [H0|H1]; [|lia].
+  destruct (Hlst H0) as [x' [y' [cs [-> Hal]]]]. cbn [children] in Hin.
+  destruct (Z.eq_dec (size x) 0) as [E|E]; [exfalso|lia].
+  unfold all_leaves in Hal. rewrite forallb_forall in Hal. pose proof (Hal x Hin) as Hl.
+  destruct x as [l| | | |]; try discriminate.
+  assert (Hlt : leaf_numtext l = true).
+  { unfold numtext_ok in Hn. rewrite forallb_forall in Hn. apply Hn.
+    apply (leaves_child (Lst x' y' cs) (Leaf l) Hin). left. reflexivity. }
+  pose proof (size0_empty l Hlt E) as He.
+  cbn [nozero] in Hz. apply andb_prop in Hz as [Hz _]. apply negb_true_iff in Hz.
+  assert (Hal' : all_leaves cs = true) by (apply forallb_forall; exact Hal).
+  assert (Hex : existsb empty_leaf cs = true) by (apply existsb_exists; eauto).
+  rewrite Hal', Hex in Hz. discriminate.
+Qed.
+
+Definition Ppos (e : edit) : Prop :=
+  forall a b, numtext_ok a = true -> numtext_ok b = true -> nozero a = true -> nozero b = true ->
+    valid a b e = true -> priced a b e = true -> pos_costs e = true.
+
+Theorem priced_pos : forall e, Ppos e.
+Proof.
+  apply edit_ind2; unfold Ppos.
+  - intros c a b _ _ _ _ _ Hp. cbn in *. apply andb_prop in Hp as [Hp _]. exact Hp.
+  - intros c a b _ _ _ _ _ Hp. cbn in *. apply Z.ltb_lt in Hp. apply Z.leb_le. lia.
+  - reflexivity.
+  - intros k c subs IH a b Hna Hnb Hza Hzb Hv Hp.
+    cbn [valid] in Hv. apply andb_prop in Hv as [Hv Hall]. apply andb_prop in Hv as [Hfit _].
+    cbn [priced] in Hp. cbn [pos_costs].
+    assert (HA : pen_of k a b = 0 -> exists x' y' cs, a = Lst x' y' cs /\ all_leaves cs = true).
+    { intro H0. destruct (pen_of_zero k a b H0) as [H1 _]. unfold pen_of in H0.
+      destruct k; try discriminate. destruct a; try discriminate. cbn [children] in H1. eauto. }
+    assert (HB : pen_of k a b = 0 -> exists x' y' cs, b = Lst x' y' cs /\ all_leaves cs = true).
+    { intro H0. destruct (pen_of_zero k a b H0) as [_ H1]. unfold pen_of in H0.
+      destruct k; try discriminate. destruct a; try discriminate. destruct b; try discriminate. cbn [children] in H1. eauto. }
+    clear Hfit. induction IH as [|s subs Hs _ IH']; [reflexivity|].
+    destruct s as [i j e'|i x|j x].
+    + destruct (nth_error (children a) i) as [x|] eqn:Ei; [|discriminate].
+      destruct (nth_error (children b) j) as [y|] eqn:Ej; [|discriminate].
+      apply andb_prop in Hall as [Hv1 Hall]. apply andb_prop in Hp as [Hp1 Hp].
+      pose proof (nth_error_In _ _ Ei) as Hxi. pose proof (nth_error_In _ _ Ej) as Hyi.
+      rewrite (Hs x y (numtext_child a x Hna Hxi) (numtext_child b y Hnb Hyi) (nozero_in a x Hza Hxi) (nozero_in b y Hzb Hyi) Hv1 Hp1).
+      apply IH'; assumption.
+    + destruct (nth_error (children a) i) as [y|] eqn:Ei; [|discriminate]. apply andb_prop in Hp as [Hp1 Hp].
+      apply Z.leb_le in Hp1. pose proof (nth_error_In _ _ Ei) as Hyi.
+      assert (0 < x) by (eapply (priced_leftover_pos k a b y x); eauto).
+      apply andb_true_intro. split; [apply Z.ltb_lt; assumption|apply IH'; assumption].
+    + destruct (nth_error (children b) j) as [y|] eqn:Ej; [|discriminate]. apply andb_prop in Hp as [Hp1 Hp].
+      apply Z.leb_le in Hp1. pose proof (nth_error_In _ _ Ej) as Hyi.
+      assert (0 < x).
+      { destruct (pen_of_range k a b) as [H0|H1]; [|pose proof (size_nonneg y); lia].
+        destruct (HB H0) as [x' [y' [cs [-> Hal]]]]. cbn [children] in Hyi.
+        destruct (Z.eq_dec (size y) 0) as [E|E]; [exfalso|pose proof (size_nonneg y); lia].
+        unfold all_leaves in Hal. rewrite forallb_forall in Hal. pose proof (Hal y Hyi) as Hl.
+        destruct y as [l| | | |]; try discriminate.
+        assert (Hlt : leaf_numtext l = true).
+        { unfold numtext_ok in Hnb. rewrite forallb_forall in Hnb. apply Hnb.
+          apply (leaves_child (Lst x' y' cs) (Leaf l) Hyi). left. reflexivity. }
+        pose proof (size0_empty l Hlt E) as He.
+        cbn [nozero] in Hzb. apply andb_prop in Hzb as [Hzb _]. apply negb_true_iff in Hzb.
+        assert (Hal' : all_leaves cs = true) by (apply forallb_forall; exact Hal).
+        assert (Hex : existsb empty_leaf cs = true) by (apply existsb_exists; eauto).
+        rewrite Hal', Hex in Hzb. discriminate. }
+      apply andb_true_intro. split; [apply Z.ltb_lt; assumption|apply IH'; assumption].
+Qed.
+
+(* the documents' tokens: a JSON-domain document prints numbers as atoms and strings of code points *)
+Lemma numchar_atomic : forall c, is_numchar c = true -> atomic c = true.
+Proof.
+  intros c H. unfold is_numchar, is_digit in H.
+  assert (Hc : 48 <= c <= 57 \/ c = 45 \/ c = 43 \/ c = 46 \/ c = 101 \/ c = 69).
+  { repeat (apply orb_prop in H; destruct H as [H|H]); try (apply Z.eqb_eq in H; lia).
+    apply andb_prop in H as [H1 H2]. apply Z.leb_le in H1, H2. lia. }
+  unfold atomic, is_sepch, is_ws, punct.
+  repeat match goal with |- context [?x =? ?y] => destruct (Z.eqb_spec x y); [lia|] end. reflexivity.
+Qed.
+
+Lemma num_ok_atoms : forall t, num_ok t = true -> nonempty t && forallb atomic t = true.
+Proof.
+  intros t H. destruct (num_ok_head t H) as [c [r [-> _]]]. cbn [nonempty andb].
+  unfold num_ok in H. apply andb_prop in H as [H _]. rewrite forallb_forall in *. intros x Hx. apply numchar_atomic. apply H. exact Hx.
+Qed.
+
+Lemma str_ok_nonneg : forall s, str_okb false s = true -> nonneg s = true.
+Proof.
+  intros s H. cbn in H. apply andb_prop in H as [H _]. unfold nonneg. rewrite forallb_forall in *. intros c Hc.
+  specialize (H c Hc). unfold cp_ok in H. apply andb_prop in H as [H _]. exact H.
+Qed.
+
+Definition Ptok (t : tree) : Prop :=
+  jshape t = true -> jwfb false (value_of t) = true -> (is_kvp t = true -> str_okb false (mkey t) = true) -> tok_ok t = true.
+
+Lemma members_tok_ok : forall cs, Forall Ptok cs -> forallb (fun c => is_kvp c && jshape c) cs = true ->
+  jwfb false (JObj (map (fun c => (mkey c, value_of c)) cs)) = true -> forallb tok_ok cs = true.
+Proof.
+  intros cs IH Hs Hw. cbn [jwfb] in Hw. rewrite forallb_forall in *. rewrite Forall_forall in IH. intros c Hc.
+  specialize (Hs c Hc). apply andb_prop in Hs as [_ Hs].
+  assert (Hm : In (mkey c, value_of c) (map (fun c => (mkey c, value_of c)) cs)) by (apply in_map_iff; eauto).
+  specialize (Hw _ Hm). cbn in Hw. apply andb_prop in Hw as [H1 H2]. apply (IH c Hc); auto.
+Qed.
+
+Theorem jshape_tok_ok : forall t, Ptok t.
+Proof.
+  apply tree_ind2; unfold Ptok.
+  - intros l _ Hw _. cbn [tok_ok]. unfold leaf_ok. cbn [value_of] in Hw. unfold leaf_value in Hw.
+    destruct (lk l); try reflexivity; cbn [jwfb] in Hw; [apply num_ok_atoms; exact Hw|apply num_ok_atoms; exact Hw|
+                                                           apply str_ok_nonneg; exact Hw].
+  - intros x y cs IH Hs Hw _. cbn [tok_ok jshape value_of jwfb] in *. rewrite forallb_forall in *. rewrite Forall_forall in IH.
+    intros c Hc. specialize (Hs c Hc). apply andb_prop in Hs as [Hk Hs]. apply (IH c Hc); auto.
+    + apply Hw. apply in_map. exact Hc.
+    + intro E. rewrite E in Hk. discriminate.
+  - intros x k v IHk IHv Hs Hw Hkey. cbn [tok_ok jshape value_of] in *.
+    apply andb_prop in Hs as [Hs H3]. apply andb_prop in Hs as [H1 H2].
+    destruct k as [l| | | |]; try discriminate. cbn in H1. cbn [mkey] in Hkey.
+    apply andb_true_intro. split.
+    + cbn [tok_ok]. unfold leaf_ok. destruct (lk l); try discriminate. apply str_ok_nonneg. apply Hkey. reflexivity.
+    + apply IHv; auto. intro E. rewrite E in H2. discriminate.
+  - intros x cs IH Hs Hw _. rewrite value_of_mset in Hw. cbn [tok_ok jshape] in *. apply members_tok_ok; assumption.
+  - intros cs IH Hs Hw _. rewrite value_of_fdict in Hw. cbn [tok_ok jshape] in *. apply members_tok_ok; assumption.
+Qed.
+
+Lemma jdoc_tok_ok : forall t, jdoc t -> tok_ok t = true.
+Proof.
+  intros t [H1 [H2 H3]]. unfold json_domainb in H3. apply andb_prop in H3 as [H3 _].
+  apply jshape_tok_ok; auto. intro E. congruence.
+Qed.
+
+(* ------------------------------------------------------------------ C06 for every well-priced script (the model's:
+   RenderScriptProofs.C06_model; the implementation's: valid / additive / priced are evaluated by C01-C03) *)
+Theorem C06_priced_text_all : forall lay a b e,
+  jdoc a -> jdoc b -> valid a b e = true -> priced a b e = true -> shaped a b e = true ->
+  typed a b = true (* D4 *) -> clean false a e = true (* D33 *) ->
+  reads_as (erase Inserted (jrender lay a b e)) a = true /\
+  reads_as (erase Removed (jrender lay a b e)) b = true.
+Proof.
+  intros lay a b e Da Db Hv Hp Hs Ht Hc.
+  apply (C06_text_all lay a b e (jdoc_tok_ok a Da) (jdoc_tok_ok b Db) Hc Hv); auto.
+  - apply priced_fair; auto using jdoc_good.
+  - exact (shaped_kvp2 e a b Hs).
+Qed.
+
+Theorem C06_priced_marks_all : forall lay a b e,
+  jdoc a -> jdoc b -> numtext_ok a = true -> numtext_ok b = true ->
+  valid a b e = true -> additive e = true -> priced a b e = true -> shaped a b e = true ->
+  nozero a = true -> nozero b = true (* D16 *) ->
+  (no_marks (jrender lay a b e) = true <-> cost e = 0).
+Proof.
+  intros lay a b e Da Db Hna Hnb Hv Had Hp Hs Hza Hzb. rewrite no_marks_iff.
+  apply (C06_marks_cost_all lay a b e (jdoc_tok_ok a Da) (jdoc_tok_ok b Db) Hv (shaped_kvp2 e a b Hs) Had).
+  exact (priced_pos e a b Hna Hnb Hza Hzb Hv Hp).
+Qed.
+
+(* the ordered-container theorems without the hypothesis edit_ok (it follows from C01 and the documents) *)
+Theorem C06_ordered_valid_all : forall lay a b e,
+  tok_ok a = true -> tok_ok b = true -> clean false a e = true ->
+  valid a b e = true -> Faithful a b e -> ordered_only e = true -> kvp2 e = true ->
+  sim (erase Inserted (jrender lay a b e)) (tprint lay 0 a) /\
+  sim (erase Removed (jrender lay a b e)) (tprint lay 0 b).
+Proof.
+  intros lay a b e Ha Hb Hc Hv Hf Ho Hk.
+  pose proof (valid_edit_ok _ e a b Ha Hb Hv (Faithful_FaithG e a b Hf)) as He.
+  apply C06_ordered_partial_all; assumption.
+Qed.
+
+Theorem C06_reads_ordered_valid_all : forall lay a b e,
+  tok_ok a = true -> tok_ok b = true -> clean false a e = true ->
+  valid a b e = true -> Faithful a b e -> ordered_only e = true -> kvp2 e = true ->
+  (jshape a = true -> is_kvp a = false -> jwfb false (value_of a) = true ->
+   jparse_lenient (erase Inserted (jrender lay a b e)) = Some (value_of a)) /\
+  (jshape b = true -> is_kvp b = false -> jwfb false (value_of b) = true ->
+   jparse_lenient (erase Removed (jrender lay a b e)) = Some (value_of b)).
+Proof.
+  intros lay a b e Ha Hb Hc Hv Hf Ho Hk.
+  pose proof (valid_edit_ok _ e a b Ha Hb Hv (Faithful_FaithG e a b Hf)) as He.
+  apply C06_reads_ordered_all; assumption.
+Qed.
+
+(* ------------------------------------------------------------------ the D33 carve-out on the document alone
+   (RenderModel.nomil: no mapping is an element of a list of the first document) *)
+Lemma nomil_child : forall a i, nomil a = true ->
+  nomil (child a i) = true /\ (is_lst a = true -> is_mapping (child a i) = false).
+Proof.
+  intros a i H. unfold child. destruct (nth_in_or_default i (children a) dummy) as [Hin|Hd].
+  - set (c := nth i (children a) dummy) in *. clearbody c.
+    destruct a as [l|x y cs|x k v|x cs|cs]; cbn [children nomil is_lst] in *.
+    + destruct Hin.
+    + rewrite forallb_forall in H. specialize (H c Hin). apply andb_prop in H as [H1 H2]. apply negb_true_iff in H1. auto.
+    + apply andb_prop in H as [H1 H2]. destruct Hin as [<-|[<-|[]]]; split; auto; discriminate.
+    + rewrite forallb_forall in H. split; [apply H; exact Hin|discriminate].
+    + rewrite forallb_forall in H. split; [apply H; exact Hin|discriminate].
+  - rewrite Hd. split; reflexivity.
+Qed.
+
+Theorem nomil_clean : forall e a inl, nomil a = true -> (inl = true -> is_mapping a = false) -> clean inl a e = true.
+Proof.
+  apply (edit_ind2 (fun e => forall a inl, nomil a = true -> (inl = true -> is_mapping a = false) -> clean inl a e = true)).
+  - intros c a inl _ H. cbn [clean]. destruct inl; [rewrite (H eq_refl)|]; cbn; rewrite andb_false_r; reflexivity.
+  - intros c a inl _ H. cbn [clean]. destruct inl; [rewrite (H eq_refl)|]; cbn; rewrite andb_false_r; reflexivity.
+  - reflexivity.
+  - intros k c subs IH a inl Hn _. cbn [clean]. destruct (is_seq_kind k).
+    + induction IH as [|s subs Hs _ IH']; [reflexivity|].
+      destruct s as [i j e'|i x|j x]; try exact IH'.
+      destruct (nomil_child a i Hn) as [H1 H2]. rewrite (Hs (child a i) (is_lst a) H1 H2). exact IH'.
+    + destruct subs as [|[i j ke|i x|j x] [|[i' j' ve|i' x'|j' x'] [|s3 rest]]]; try reflexivity.
+      pose proof (Forall_inv IH) as Hke. pose proof (Forall_inv (Forall_inv_tail IH)) as Hve. cbn beta iota in Hke, Hve.
+      rewrite (Hke (child a 0) false), (Hve (child a 1) false); try reflexivity; try discriminate; apply nomil_child; exact Hn.
+Qed.
+
+(* ------------------------------------------------------------------ the bridge to the implementation: for a case
+   whose decoded output equals the model's rendering of the implementation's own script (corr_C06, evaluated on every
+   case) and which lies inside the evaluated hypotheses thm_C06, the clauses of holds_C06 are theorems *)
+Lemma jdocb_jdoc : forall t, jdocb t = true -> jdoc t.
+Proof.
+  intros t H. unfold jdocb in H. apply andb_prop in H as [H H3]. apply andb_prop in H as [H1 H2].
+  apply negb_true_iff in H2. repeat split; assumption.
+Qed.
+
+Lemma stream_eqb_eq : forall x y, stream_eqb x y = true -> x = y.
+Proof.
+  induction x as [|[c m] x IH]; intros [|[d m'] y] H; cbn in H; try discriminate; [reflexivity|].
+  apply andb_prop in H as [H H3]. apply andb_prop in H as [H1 H2]. apply Z.eqb_eq in H1.
+  assert (m = m') by (destruct m, m'; try discriminate; reflexivity). subst. f_equal. apply IH. exact H3.
+Qed.
+
+Theorem C06_bridge_all : forall c, thm_C06 c = true -> corr_C06 c = true ->
+  holds_C06_first c = true /\ holds_C06_second c = true /\
+  exists st, classify (rc_obs c) = Some st /\ (no_marks st = true <-> cost (sc_edit (rc_script c)) = 0).
+Proof.
+  intros c Ht Hc. unfold thm_C06 in Ht. cbv zeta in Ht.
+  repeat match type of Ht with (_ && _) = true => let H' := fresh "T" in apply andb_prop in Ht as [Ht H'] end.
+  apply jdocb_jdoc in Ht, T9.
+  unfold corr_C06 in Hc. unfold holds_C06_first, holds_C06_second.
+  destruct (classify (rc_obs c)) as [st|]; [|discriminate]. apply stream_eqb_eq in Hc. subst st.
+  destruct (C06_priced_text_all (rc_lay c) _ _ _ Ht T9 T6 T4 T3 T2 T) as [H1 H2].
+  split; [exact H1|]. split; [exact H2|]. eexists. split; [reflexivity|].
+  apply C06_priced_marks_all; assumption.
 Qed.
